@@ -64,8 +64,29 @@ def check(run, ctx):
     groups = {("files" if "files" in m else "dir") for m in cr}
     if in_loop or len(groups) > 1:
         run.finding(A2, "execute_linting_on_paths", "per-group-finalize", f"file targets are finalized as one group and each directory target separately ({sorted(cr)}; in a loop: {sorted(in_loop)}): cross-file rules judge each group on its own (today masked/duplicated by the DRY state that is never reset, C08-S1)", cli.loc)
+        # the two defects mask each other (DESIGN 5 item 9): while the CLI finalizes per group, the DRY storage that
+        # survives finalize() is what still lets files of different targets be compared.  Repairing only the reset
+        # (S1) loses every duplicate shared between two targets - that state of the tree is a NEW violation.
+        dfin = repo.funcs.get("src.linters.dry.linter.DRYRule.finalize")
+        if dfin is not None:
+            resets = [n for n in inline.flat_nodes(repo, dfin) if isinstance(n, ast.Assign) and any(isinstance(t, ast.Attribute) and t.attr in ("_storage", "_active_storage") and isinstance(t.value, ast.Name) and t.value.id == "self" for t in n.targets)]
+            resets += [n for n in inline.flat_nodes(repo, dfin) if isinstance(n, ast.Call) and isinstance(n.func, ast.Attribute) and n.func.attr in ("clear", "reset", "close") and isinstance(n.func.value, ast.Attribute) and n.func.value.attr in ("_storage", "_active_storage")]
+            if resets:
+                run.finding(A2, "execute_linting_on_paths", "per-group-finalize-with-reset", f"DRYRule.finalize now drops its block storage (`{norm(resets[0])[:60]}`) while the CLI still finalizes once per target group: blocks of `dirA/x.py` are gone when `dirB/y.py` is finalized, so a duplicate shared between two targets of one command (or two lint() calls of one Linter) is not reported at all", f"{dfin.module.rel}:{resets[0].lineno}")
+            else:
+                run.ok(A2, "DRYRule.finalize vs per-group finalize", "storage survives finalize(): cross-target duplicates are still found (the known S1/A2 pair)")
     else:
         run.ok(A2, "execute_linting_on_paths", "single finalizing call per invocation")
+
+    # the CLI hands on what the orchestrator returned: the list is only extended, never filtered, de-duplicated or rebuilt
+    rets = [r for r in ast.walk(cli.node) if isinstance(r, ast.Return) and r.value is not None]
+    acc = {t.id for a in ast.walk(cli.node) if isinstance(a, (ast.Assign, ast.AnnAssign)) and isinstance(getattr(a, "value", None), ast.List) and not a.value.elts for t in (a.targets if isinstance(a, ast.Assign) else [a.target]) if isinstance(t, ast.Name)}
+    rebound = [a for a in ast.walk(cli.node) if isinstance(a, ast.Assign) and any(isinstance(t, ast.Name) and t.id in acc for t in a.targets) and not (isinstance(a.value, ast.List) and not a.value.elts)]
+    post = [r for r in rets if not (isinstance(r.value, ast.Name) and r.value.id in acc)] + rebound
+    if post:
+        run.finding(A2, "execute_linting_on_paths", f"post-processed:{norm(post[0])[:60]}", f"execute_linting_on_paths returns `{norm(post[0])[:70]}`: the CLI rewrites the violation list after the orchestrator produced it (the library entry point returns it as it is), so one and the same target yields different violations through the two entry points whenever the rewrite drops or merges something", f"{cli.module.rel}:{post[0].lineno}")
+    else:
+        run.ok(A2, "execute_linting_on_paths result", "the accumulated orchestrator results, returned unchanged")
 
     A3 = run.rule("A3", "both entry points discover configuration the same way and filter by rule id", floor=3)
     li = repo.func("src.api.Linter.__init__")
